@@ -395,9 +395,12 @@ def run_standin(rep, prop, si, open_known, tier, seed):
     except Exception as ex:
         rep.errors.append(f"stand-in {si.name}: {type(ex).__name__}: {ex}\n" + traceback.format_exc(limit=6))
         return
+    sample = stats.pop("sample", None)
     entry = {"name": si.name, "function": si.contract.key, "bound": si.harness.scope, **stats,
              "wall_s": round(time.time() - t0, 2), "failures": len(failures)}
     rep.bounded.append(entry)
+    if sample is not None:
+        rep.samples.append({"bounded_standin": si.name, "one_input_of_this_run": sample})
     if stats["evaluations"] == 0:
         rep.errors.append(f"stand-in {si.name}: zero evaluations")
     reported = set()
